@@ -272,6 +272,8 @@ def oracle(case, res):
     diffs = expect.compare(case['expected'] if 'expected' in case else expect.expected(case['desc']), res['snap'])
     out = []
     seen = set()
+    if res.get('reload_differs') and not diffs:
+        diffs = [('/reload', 'the same snapshot as the first load of these bytes', 'a different one')]
     for path, want, got in diffs:
         clause = expect.clause_of(path)
         if clause in seen:
@@ -433,7 +435,7 @@ def run(ctx):
     coq_ids = list(range(ncoq_total)) + [len(cases) + k for k, c in enumerate(shipped) if len(c['xml']) < 8000]
     terms, idx, tables, encode_errors = [], [], [], []
     for i in coq_ids:
-        if 'snap' not in results[i]:
+        if 'snap' not in results[i] or (allc[i].get('desc') or {}).get('repair_paths'):
             continue
         try:
             t, table = coq_case(allc[i]['xml'].encode('utf-8'), results[i]['snap'], dom=(len(terms) % 4 == 0))
